@@ -112,6 +112,54 @@ def random_spec(rng, with_flags=False):
     return sp
 
 
+def stack_spec(rng):
+    """start-state heavy family: every state can be pushed, popped and replaced
+    from everywhere, and an observer rule `x` reveals the current state, so that
+    the whole stack discipline (repeated pushes of one state, pops down to and
+    past the bottom, replace followed by pops) is visible in the lexemes"""
+    sp = Spec()
+    nst = rng.randint(1, 3)
+    for nm in STATE_NAMES[:nst]:
+        sp.states.append((nm, rng.random() < 0.5))
+    allstates = ["INITIAL"] + [s for s, _ in sp.states]
+    everywhere = list(allstates)
+    k = 0
+
+    def add(re, name, starts, target):
+        sp.rules.append({"re": re, "samples": [re], "name": name, "starts": starts, "target": target})
+    letters = "abcdefgh"
+    for st in allstates:
+        for op in ("push", "replace"):
+            if rng.random() < 0.75:
+                add(letters[k % 8] * (1 + k // 8), None if rng.random() < 0.3 else "M%d" % k,
+                    everywhere if rng.random() < 0.8 else rng.sample(allstates, rng.randint(1, len(allstates))),
+                    (op, st))
+                k += 1
+    add("p", None if rng.random() < 0.3 else "POP", everywhere, ("pop", rng.choice(allstates)))
+    for st in allstates:
+        add("x", "X_%s" % st, [st], None)
+    if rng.random() < 0.5:
+        add("y", "Y", [], None)           # active exactly in the inclusive states
+    rng.shuffle(sp.rules)
+    return sp
+
+
+def stack_input(rng, sp):
+    movers = [r["re"] for r in sp.rules if r["target"] and r["target"][0] != "pop"]
+    out = []
+    for _ in range(rng.randint(2, 16)):
+        x = rng.random()
+        if x < 0.35 and movers:
+            out.append(rng.choice(movers) * rng.choice([1, 1, 2, 3]))     # repeated push of one state
+        elif x < 0.65:
+            out.append("p" * rng.choice([1, 1, 1, 2]))
+        elif x < 0.93:
+            out.append("x")
+        else:
+            out.append("y")
+    return "".join(out)
+
+
 def random_input(rng, sp):
     mode = rng.random()
     if mode < 0.03:
